@@ -89,7 +89,61 @@ def _starts_message(p):
     return p[:1] in (b"[", b"{", b"(")
 
 
+def run_growing_case(seed, i, tier):
+    """a log that another process appends to while it is printed (the normal life of a log): the file as it was when the reader
+    opened it ends in the middle of a line; some steps into the run the rest of that line and further messages are appended.
+    What is printed must be the file as it was at the moment it was opened -- the old content (its cut line completed by the
+    supplied newline) or, when the append came first, the new content -- never something in between."""
+    import world
+    rng = core.rng_for(seed, PROP, i)
+    bsz = rng.choice((64, 100, 128, 256, 1000, 65536))
+    p = world.TextLogParams(n_msgs=rng.randint(8, 60), src_letter=b"W", cont_p=0.2, body_len=(20, 120), bsz=bsz if bsz <= 1000 else 0,
+                            notation=rng.choice((1, 1, 2, 6)), frac_digits=3)
+    content, msgs, _ = world.gen_text_log(rng, p)
+    k = rng.randint(max(4, len(msgs) // 2), len(msgs) - 1)          # the message whose first line is cut
+    head = b"".join(m.data for m in msgs[:k])
+    line_end = msgs[k].data.find(b"\n")
+    cut = rng.randint(32, max(33, line_end - 1)) if line_end > 34 else len(msgs[k].data) - 1
+    old = head + msgs[k].data[:cut]
+    rest = msgs[k].data[cut:] + b"".join(m.data for m in msgs[k + 1:])
+    if not merge.blockzero_safe(content, msgs, bsz) or not rest:
+        return CaseResult()
+    want_old = old + b"\n"
+    want_new = content
+    src = merge.Source("grow.log", "text", msgs[:k + 1], old, old)
+    opts = ["--color", "never", "--blocksz", str(bsz), "--tz-offset", "+00:00"]
+    prng = core.rng_for(seed, PROP, i, "plan")
+    plan = core.random_plan(prng, 1, budget=mergecheck.step_budget([merge.Source("g", "text", msgs, content, content)], bsz) + 2000)
+    plan.hashseed = rng.getrandbits(32)
+    plan.append = (rng.randint(1, 30 + 14 * k), "grow.log", rest)
+    _, res = mergecheck.run_once([src], opts, plan)
+    cr = CaseResult()
+    cr.runs = 1
+    cr.steps = cr.steps_max = res.trace.steps
+    cr.policies[plan.policy.split(":")[0]] += 1
+    cr.faults["file_appended_to_while_read"] += 1
+    cr.decision_hashes.append(res.trace.decision_hash())
+    cr.arrival_hashes.append(res.trace.arrival_hash())
+    cr.nontrivial_keys.append(core.derive(0, merge.scenario_for([src], opts).digest() + str(plan.append[0])))
+    vs = mergecheck.evaluate(res, None, check_protocol=False)
+    if not vs:
+        if res.stdout == want_old:
+            cr.probes["append_came_after_the_file_was_opened"] += 1
+        elif res.stdout == want_new:
+            cr.probes["append_came_before_the_file_was_opened"] += 1
+        else:
+            vs.append(("growing_file_neither_old_nor_new_content", "old content: " + mergecheck.show_diff(res.stdout, want_old) + "\n  new content: " + mergecheck.show_diff(res.stdout, want_new)))
+    for (cls, detail) in vs:
+        rp = mergecheck.make_replay([src], opts, plan, "UTC", res, {"class": cls, "no_model": True, "growing": True,
+                                    "want_old_b64": base64.b64encode(want_old).decode(), "want_new_b64": base64.b64encode(want_new).decode()})
+        cr.violations.append(Violation(cls, "bsz=%d append at step %d of %d bytes: %s" % (bsz, plan.append[0], len(rest), detail), rp))
+    cr.sample = {"argv": opts + ["grow.log"], "append_at_step": plan.append[0], "appended_bytes": len(rest)}
+    return cr
+
+
 def run_case(seed, i, tier):
+    if i % 25 == 7:
+        return run_growing_case(seed, i, tier)
     rng = core.rng_for(seed, PROP, i)
     bsz, srcs, opts, sep, special = gen_case(rng)
     expected = merge.model_stdout(srcs, sep)
@@ -133,10 +187,22 @@ def run_case(seed, i, tier):
 
 
 def replay(rp):
+    if rp.get("growing"):
+        srcs = mergecheck.sources_from_json(rp["sources"])
+        plan = core.Plan.from_json(rp["plan"])
+        if getattr(plan, "append", None):
+            plan.append = (plan.append[0], plan.append[1], bytes(plan.append[2]) if not isinstance(plan.append[2], str) else bytes.fromhex(plan.append[2]))
+        _, res = mergecheck.run_once(srcs, rp["opts"], plan)
+        cl = set(c for (c, _) in mergecheck.evaluate(res, None, check_protocol=False))
+        if not cl and res.stdout not in (base64.b64decode(rp["want_old_b64"]), base64.b64decode(rp["want_new_b64"])):
+            cl.add("growing_file_neither_old_nor_new_content")
+        return (rp.get("class") in cl) if rp.get("class") else bool(cl)
     return mergecheck.replay(rp)
 
 
 def minimise(rp, cls):
+    if rp.get("growing"):
+        return rp
     return mergecheck.minimise(rp, cls)
 
 
